@@ -177,4 +177,355 @@ theorem assignableL_refl : ∀ (as : List Ty), assignableL as as = true
   | a :: as => by simp [assignableL, assignable_refl a, assignableL_refl as]
 end
 
+mutual
+theorem fillInt_anyFree : ∀ (t : Ty), anyFree (fillInt t) = true
+  | .any _ => by simp [fillInt, anyFree]
+  | .prim _ => by simp [fillInt, anyFree]
+  | .generic _ => by simp [fillInt, anyFree]
+  | .nominal _ _ _ ts => by simp [fillInt, anyFree, fillIntL_anyFree ts]
+  | .fn as r => by simp [fillInt, anyFree, fillIntL_anyFree as, fillInt_anyFree r]
+theorem fillIntL_anyFree : ∀ (ts : List Ty), anyFreeL (fillIntL ts) = true
+  | [] => by simp [fillIntL, anyFreeL]
+  | t :: ts => by simp [fillIntL, anyFreeL, fillInt_anyFree t, fillIntL_anyFree ts]
+end
+
+mutual
+theorem refines_fillInt : ∀ (t : Ty), refines t (fillInt t) = true
+  | .any _ => by simp [fillInt, refines]
+  | .prim _ => by simp [fillInt, refines]
+  | .generic _ => by simp [fillInt, refines]
+  | .nominal _ _ _ ts => by simp [fillInt, refines, refinesL_fillInt ts]
+  | .fn as r => by simp [fillInt, refines, refinesL_fillInt as, refines_fillInt r]
+theorem refinesL_fillInt : ∀ (ts : List Ty), refinesL ts (fillIntL ts) = true
+  | [] => by simp [fillIntL, refinesL]
+  | t :: ts => by simp [fillIntL, refinesL, refines_fillInt t, refinesL_fillInt ts]
+end
+
+-- soundness direction: accepted ⇒ `common a b` is an any-free common instance
+mutual
+theorem common_spec : ∀ (a b : Ty), assignable a b = true →
+    anyFree (common a b) = true ∧ refines a (common a b) = true ∧ refines b (common a b) = true
+  | .any _, b, _ => by
+    simp [common, refines, fillInt_anyFree, refines_fillInt]
+  | .prim k, b, h => by
+    cases b <;> simp_all [assignable, common, refines, anyFree]
+  | .generic n, b, h => by
+    cases b <;> simp_all [assignable, common, refines, anyFree]
+  | .nominal s m i as, b, h => by
+    cases b with
+    | nominal s' m' i' bs =>
+      simp only [assignable, Bool.and_eq_true, beq_iff_eq] at h
+      obtain ⟨⟨⟨rfl, rfl⟩, rfl⟩, hl⟩ := h
+      have := commonL_spec as bs hl
+      simp [common, anyFree, refines, this]
+    | any p =>
+      simp [common, refines, fillInt_anyFree, refines_fillInt]
+    | _ => simp [assignable] at h
+  | .fn as r, b, h => by
+    cases b with
+    | fn bs r' =>
+      simp only [assignable, Bool.and_eq_true] at h
+      have h1 := commonL_spec as bs h.1
+      have h2 := common_spec r r' h.2
+      simp [common, anyFree, refines, h1, h2]
+    | any p =>
+      simp [common, refines, fillInt_anyFree, refines_fillInt]
+    | _ => simp [assignable] at h
+theorem commonL_spec : ∀ (as bs : List Ty), assignableL as bs = true →
+    anyFreeL (commonL as bs) = true ∧ refinesL as (commonL as bs) = true ∧ refinesL bs (commonL as bs) = true
+  | [], [], _ => by simp [commonL, anyFreeL, refinesL]
+  | [], _ :: _, h => by simp [assignableL] at h
+  | _ :: _, [], h => by simp [assignableL] at h
+  | a :: as, b :: bs, h => by
+    simp only [assignableL, Bool.and_eq_true] at h
+    have h1 := common_spec a b h.1
+    have h2 := commonL_spec as bs h.2
+    simp [commonL, anyFreeL, refinesL, h1, h2]
+end
+
+-- completeness direction
+mutual
+theorem assignable_of_common_instance : ∀ (a b c : Ty), anyFree c = true →
+    refines a c = true → refines b c = true → assignable a b = true
+  | .any _, _, _, _, _, _ => by simp [assignable]
+  | .prim k, b, c, hc, ha, hb => by
+    cases b <;> cases c <;> simp_all [assignable, refines, anyFree]
+  | .generic n, b, c, hc, ha, hb => by
+    cases b <;> cases c <;> simp_all [assignable, refines, anyFree]
+  | .nominal s m i as, b, c, hc, ha, hb => by
+    cases c with
+    | nominal s2 m2 i2 cs =>
+      cases b with
+      | nominal s1 m1 i1 bs =>
+        simp only [refines, Bool.and_eq_true, beq_iff_eq] at ha hb
+        simp only [anyFree] at hc
+        have := assignableL_of_common_instance as bs cs hc ha.2 hb.2
+        simp [assignable, this, ha.1, hb.1]
+      | any p => simp [assignable]
+      | _ => simp [refines] at hb
+    | _ => simp [refines] at ha
+  | .fn as r, b, c, hc, ha, hb => by
+    cases c with
+    | fn cs rc =>
+      cases b with
+      | fn bs rb =>
+        simp only [refines, Bool.and_eq_true] at ha hb
+        simp only [anyFree, Bool.and_eq_true] at hc
+        have h1 := assignableL_of_common_instance as bs cs hc.1 ha.1 hb.1
+        have h2 := assignable_of_common_instance r rb rc hc.2 ha.2 hb.2
+        simp [assignable, h1, h2]
+      | any p => simp [assignable]
+      | _ => simp [refines] at hb
+    | _ => simp [refines] at ha
+theorem assignableL_of_common_instance : ∀ (as bs cs : List Ty), anyFreeL cs = true →
+    refinesL as cs = true → refinesL bs cs = true → assignableL as bs = true
+  | [], [], _, _, _, _ => by simp [assignableL]
+  | [], _ :: _, cs, _, ha, hb => by cases cs <;> simp_all [refinesL]
+  | _ :: _, [], cs, _, ha, hb => by cases cs <;> simp_all [refinesL]
+  | a :: as, b :: bs, cs, hc, ha, hb => by
+    cases cs with
+    | nil => simp [refinesL] at ha
+    | cons c cs =>
+      simp only [refinesL, anyFreeL, Bool.and_eq_true] at ha hb hc
+      have h1 := assignable_of_common_instance a b c hc.1 ha.1 hb.1
+      have h2 := assignableL_of_common_instance as bs cs hc.2 ha.2 hb.2
+      simp [assignableL, h1, h2]
+end
+
+
+/-- all bound values are any-free -/
+def AnyFreeVals (s : Subst) : Prop := ∀ n t, s.get n = some t → anyFree t = true
+/-- all keys are type parameters -/
+def KeysIn (tps : List Nat) (s : Subst) : Prop := ∀ n t, s.get n = some t → n ∈ tps
+/-- `s'` keeps every binding of `s` -/
+def Ext (s s' : Subst) : Prop := ∀ n t, s.get n = some t → s'.get n = some t
+
+theorem Ext.refl (s : Subst) : Ext s s := fun _ _ h => h
+theorem Ext.trans {a b c : Subst} (h1 : Ext a b) (h2 : Ext b c) : Ext a c :=
+  fun n t h => h2 n t (h1 n t h)
+
+theorem get_append_single (s : Subst) (k : Nat) (v : Ty) (n : Nat) :
+    (s ++ [(k, v)]).get n = match s.get n with
+      | some t => some t
+      | none => if k = n then some v else none := by
+  induction s with
+  | nil => simp [Subst.get]
+  | cons kv rest ih =>
+    obtain ⟨k', v'⟩ := kv
+    simp only [List.cons_append, Subst.get]
+    split
+    · rfl
+    · exact ih
+
+mutual
+theorem containsPlaceholder_of_anyFree : ∀ (t : Ty), anyFree t = true → containsPlaceholder t = false
+  | .any _, h => by simp [anyFree] at h
+  | .prim _, _ => by simp [containsPlaceholder]
+  | .generic _, _ => by simp [containsPlaceholder]
+  | .nominal _ _ _ ts, h => by
+    simp only [anyFree] at h
+    simp [containsPlaceholder, containsPlaceholderL_of_anyFree ts h]
+  | .fn as r, h => by
+    simp only [anyFree, Bool.and_eq_true] at h
+    simp [containsPlaceholder, containsPlaceholderL_of_anyFree as h.1, containsPlaceholder_of_anyFree r h.2]
+theorem containsPlaceholderL_of_anyFree : ∀ (ts : List Ty), anyFreeL ts = true → containsPlaceholderL ts = false
+  | [], _ => by simp [containsPlaceholderL]
+  | t :: ts, h => by
+    simp only [anyFreeL, Bool.and_eq_true] at h
+    simp [containsPlaceholderL, containsPlaceholder_of_anyFree t h.1, containsPlaceholderL_of_anyFree ts h.2]
+end
+
+-- solve only appends bindings of type parameters to any-free subterms of the concrete type
+mutual
+theorem solve_inv (tps : List Nat) : ∀ (g c : Ty) (s : Subst), anyFree c = true →
+    AnyFreeVals s → KeysIn tps s →
+    Ext s (solve tps c g s) ∧ AnyFreeVals (solve tps c g s) ∧ KeysIn tps (solve tps c g s)
+  | .any _, c, s, _, hv, hk => by simp [solve, Ext.refl, hv, hk]
+  | .prim _, c, s, _, hv, hk => by simp [solve, Ext.refl, hv, hk]
+  | .generic n, c, s, hc, hv, hk => by
+    simp only [solve]
+    split
+    · rename_i hcond
+      simp only [Bool.and_eq_true, List.contains_iff_mem, Option.isNone_iff_eq_none] at hcond
+      rw [containsPlaceholder_of_anyFree c hc]
+      simp only [Bool.not_false, if_true]
+      refine ⟨?_, ?_, ?_⟩
+      · intro m t hm; rw [get_append_single, hm]
+      · intro m t hm
+        rw [get_append_single] at hm
+        split at hm
+        · rename_i t' ht'; simp at hm; subst hm; exact hv m t' ht'
+        · split at hm
+          · simp at hm; subst hm; exact hc
+          · simp at hm
+      · intro m t hm
+        rw [get_append_single] at hm
+        split at hm
+        · rename_i t' ht'; exact hk m t' ht'
+        · split at hm
+          · rename_i hkn; subst hkn; exact hcond.1
+          · simp at hm
+    · exact ⟨Ext.refl s, hv, hk⟩
+  | .nominal _ gm gi gts, c, s, hc, hv, hk => by
+    cases c with
+    | nominal cs cm ci cts =>
+      simp only [solve]
+      split
+      · simp only [anyFree] at hc
+        exact solveL_inv tps gts cts s hc hv hk
+      · exact ⟨Ext.refl s, hv, hk⟩
+    | _ => simp [solve, Ext.refl, hv, hk]
+  | .fn gas gr, c, s, hc, hv, hk => by
+    cases c with
+    | fn cas cr =>
+      simp only [solve]
+      simp only [anyFree, Bool.and_eq_true] at hc
+      have h1 := solveL_inv tps gas cas s hc.1 hv hk
+      have h2 := solve_inv tps gr cr (solveL tps cas gas s) hc.2 h1.2.1 h1.2.2
+      exact ⟨h1.1.trans h2.1, h2.2.1, h2.2.2⟩
+    | _ => simp [solve, Ext.refl, hv, hk]
+theorem solveL_inv (tps : List Nat) : ∀ (gs cs : List Ty) (s : Subst), anyFreeL cs = true →
+    AnyFreeVals s → KeysIn tps s →
+    Ext s (solveL tps cs gs s) ∧ AnyFreeVals (solveL tps cs gs s) ∧ KeysIn tps (solveL tps cs gs s)
+  | [], cs, s, _, hv, hk => by cases cs <;> simp [solveL, Ext.refl, hv, hk]
+  | g :: gs, [], s, _, hv, hk => by simp [solveL, Ext.refl, hv, hk]
+  | g :: gs, c :: cs, s, hc, hv, hk => by
+    simp only [anyFreeL, Bool.and_eq_true] at hc
+    simp only [solveL]
+    have h1 := solve_inv tps g c s hc.1 hv hk
+    have h2 := solveL_inv tps gs cs (solve tps c g s) hc.2 h1.2.1 h1.2.2
+    exact ⟨h1.1.trans h2.1, h2.2.1, h2.2.2⟩
+end
+
+theorem substL_length (m : Subst) : ∀ (ts : List Ty), (substL m ts).length = ts.length
+  | [] => by simp [substL]
+  | t :: ts => by simp [substL, substL_length m ts]
+
+theorem assignableL_length : ∀ (xs ys : List Ty), assignableL xs ys = true → xs.length = ys.length
+  | [], [], _ => rfl
+  | [], _ :: _, h => by simp [assignableL] at h
+  | _ :: _, [], h => by simp [assignableL] at h
+  | x :: xs, y :: ys, h => by
+    simp only [assignableL, Bool.and_eq_true] at h
+    simp [assignableL_length xs ys h.2]
+
+-- accepted by the final check => the substituted generic type IS the concrete type
+mutual
+theorem solve_exact (tps : List Nat) : ∀ (g c : Ty) (s sf : Subst), anyFree c = true → anyFree g = true →
+    AnyFreeVals s → KeysIn tps s → Ext (solve tps c g s) sf → KeysIn tps sf →
+    assignable c (subst sf g) = true → subst sf g = c
+  | .any _, _, _, _, _, hg, _, _, _, _, _ => by simp [anyFree] at hg
+  | .prim k, c, s, sf, hc, _, _, _, _, _, ha => by
+    simp only [subst] at ha ⊢
+    exact ((assignable_iff_eq c (.prim k) hc (by simp [anyFree])).1 ha).symm
+  | .generic n, c, s, sf, hc, _, hv, hk, hext, hkf, ha => by
+    by_cases hcond : (tps.contains n && (s.get n).isNone) = true
+    · have hcond' : n ∈ tps ∧ s.get n = none := by simpa using hcond
+      have hs : solve tps c (.generic n) s = s ++ [(n, c)] := by
+        simp [solve, hcond'.1, hcond'.2, containsPlaceholder_of_anyFree c hc]
+      replace hcond := hcond'
+      have : sf.get n = some c := by
+        apply hext
+        rw [hs, get_append_single, hcond.2]
+        simp
+      simp [subst, this]
+    · have hs : solve tps c (.generic n) s = s := by
+        simp only [solve]
+        split
+        · rename_i h; exact absurd h hcond
+        · rfl
+      rw [hs] at hext
+      cases hget : s.get n with
+      | some t =>
+        have hf := hext n t hget
+        simp only [subst, hf] at ha ⊢
+        exact ((assignable_iff_eq c t hc (hv n t hget)).1 ha).symm
+      | none =>
+        have hnot : n ∉ tps := by
+          intro hmem
+          apply hcond
+          simp [hmem, hget]
+        have hf : sf.get n = none := by
+          cases h' : sf.get n with
+          | none => rfl
+          | some t => exact absurd (hkf n t h') hnot
+        simp only [subst, hf] at ha ⊢
+        exact ((assignable_iff_eq c (.generic n) hc (by simp [anyFree])).1 ha).symm
+  | .nominal gs gm gi gts, c, s, sf, hc, hg, hv, hk, hext, hkf, ha => by
+    cases c with
+    | nominal cs cm ci cts =>
+      simp only [subst, assignable, Bool.and_eq_true, beq_iff_eq] at ha
+      obtain ⟨⟨⟨h1, h2⟩, h3⟩, hl⟩ := ha
+      have hlen : gts.length = cts.length := by
+        have := assignableL_length _ _ hl
+        rw [substL_length] at this
+        exact this.symm
+      have hs : solve tps (.nominal cs cm ci cts) (.nominal gs gm gi gts) s = solveL tps cts gts s := by
+        simp [solve, hlen, h1, h2]
+      rw [hs] at hext
+      simp only [anyFree] at hc hg
+      have := solveL_exact tps gts cts s sf hc hg hv hk hext hkf hl
+      simp [subst, this, h1, h2, h3]
+    | any _ => simp [anyFree] at hc
+    | _ => simp [subst, assignable] at ha
+  | .fn gas gr, c, s, sf, hc, hg, hv, hk, hext, hkf, ha => by
+    cases c with
+    | fn cas cr =>
+      simp only [subst, assignable, Bool.and_eq_true] at ha
+      simp only [anyFree, Bool.and_eq_true] at hc hg
+      have hs : solve tps (.fn cas cr) (.fn gas gr) s = solve tps cr gr (solveL tps cas gas s) := by
+        simp [solve]
+      rw [hs] at hext
+      have h1 := solveL_inv tps gas cas s hc.1 hv hk
+      have h2 := solve_inv tps gr cr (solveL tps cas gas s) hc.2 h1.2.1 h1.2.2
+      have ha1 := solveL_exact tps gas cas s sf hc.1 hg.1 hv hk (h2.1.trans hext) hkf ha.1
+      have ha2 := solve_exact tps gr cr (solveL tps cas gas s) sf hc.2 hg.2 h1.2.1 h1.2.2 hext hkf ha.2
+      simp [subst, ha1, ha2]
+    | any _ => simp [anyFree] at hc
+    | _ => simp [subst, assignable] at ha
+theorem solveL_exact (tps : List Nat) : ∀ (gs cs : List Ty) (s sf : Subst), anyFreeL cs = true → anyFreeL gs = true →
+    AnyFreeVals s → KeysIn tps s → Ext (solveL tps cs gs s) sf → KeysIn tps sf →
+    assignableL cs (substL sf gs) = true → substL sf gs = cs
+  | [], cs, _, _, _, _, _, _, _, _, ha => by
+    cases cs with
+    | nil => simp [substL]
+    | cons _ _ => simp [substL, assignableL] at ha
+  | g :: gs, [], _, _, _, _, _, _, _, _, ha => by simp [substL, assignableL] at ha
+  | g :: gs, c :: cs, s, sf, hc, hg, hv, hk, hext, hkf, ha => by
+    simp only [anyFreeL, Bool.and_eq_true] at hc hg
+    simp only [substL, assignableL, Bool.and_eq_true] at ha
+    simp only [solveL] at hext
+    have h1 := solve_inv tps g c s hc.1 hv hk
+    have h2 := solveL_inv tps gs cs (solve tps c g s) hc.2 h1.2.1 h1.2.2
+    have ha1 := solve_exact tps g c s sf hc.1 hg.1 hv hk (h2.1.trans hext) hkf ha.1
+    have ha2 := solveL_exact tps gs cs (solve tps c g s) sf hc.2 hg.2 h1.2.1 h1.2.2 hext hkf ha.2
+    simp [substL, ha1, ha2]
+end
+
+-- fillPlaceholders keeps bindings and only adds type-parameter keys
+theorem fill_inv (tps all : List Nat) (s : Subst) (hk : KeysIn all s) (hsub : ∀ n ∈ tps, n ∈ all) :
+    Ext s (tps.foldl (fun s n => if (s.get n).isNone then s ++ [(n, .any true)] else s) s) ∧
+    KeysIn all (tps.foldl (fun s n => if (s.get n).isNone then s ++ [(n, .any true)] else s) s) := by
+  induction tps generalizing s with
+  | nil => exact ⟨Ext.refl s, hk⟩
+  | cons n tps ih =>
+    simp only [List.foldl_cons]
+    have hsub' : ∀ m ∈ tps, m ∈ all := fun m hm => hsub m (by simp [hm])
+    split
+    · rename_i hnone
+      have hk' : KeysIn all (s ++ [(n, .any true)]) := by
+        intro m t hm
+        rw [get_append_single] at hm
+        split at hm
+        · rename_i t' ht'; exact hk m t' ht'
+        · split at hm
+          · rename_i hnm; subst hnm; exact hsub n (by simp)
+          · simp at hm
+      have hext' : Ext s (s ++ [(n, .any true)]) := by
+        intro m t hm; rw [get_append_single, hm]
+      have := ih (s ++ [(n, .any true)]) hk' hsub'
+      exact ⟨hext'.trans this.1, this.2⟩
+    · exact ih s hk hsub'
+
+
 end SamVerif.Assign
